@@ -36,9 +36,11 @@ def gen_cases(tier, seed):
             yield cl.H(cfgv).call(2, [3], [], [(10, bytes([0x50, 3] + [1] * n))]).case(5000, 'change_session reply length')
     for v in VALUES:
         yield Case(5018, [v], [], 'edition at construction')
-        for std in EDITIONS:
+        yield Case(5018, [v, -1], [], 'edition at construction, overall timeout disabled')
+        for std, rto in [(e, t) for e in EDITIONS for t in (5000000, -1)]:
             cfgv = list(cl.DEFAULT_CFG)
             cfgv[cl.STD] = std
+            cfgv[cl.REQ_TO] = rto      # -1 = request_timeout None (the documented way to disable the overall timeout)
             h = cl.H(cfgv).set_cfg(cl.STD, v)
             h.call(8, a_clear_dtc(0x123456, 1), [], [])
             h.set_cfg(cl.STD, 2020).call(8, a_clear_dtc(0x123456, 1), [], [])
@@ -55,7 +57,10 @@ def impl(c):
         cl.setup()
         conn = cl._Conn(cl.VClock())
         try:
-            uc.Client(conn, config={'standard_version': c.ints[0]})
+            cfg = {'standard_version': c.ints[0]}
+            if len(c.ints) > 1 and c.ints[1] < 0:
+                cfg['request_timeout'] = None
+            uc.Client(conn, config=cfg)
             return [0]
         except Exception as e:
             return [2, err_code(e)]
